@@ -12,7 +12,6 @@ import (
 	"strings"
 
 	"github.com/go-logr/logr"
-	apierrors "k8s.io/apimachinery/pkg/api/errors"
 	metav1 "k8s.io/apimachinery/pkg/apis/meta/v1"
 	"k8s.io/apimachinery/pkg/apis/meta/v1/unstructured"
 	"k8s.io/apimachinery/pkg/runtime"
@@ -124,6 +123,9 @@ func templatePhases(ps []PhaseSpec) []corev1alpha1.ObjectSetTemplatePhase {
 }
 
 func (y *sys) putSet(sp SetSpec) {
+	if sp.Lifecycle == "" {
+		sp.Lifecycle = "Active" // what the CRD default would store
+	}
 	spec := corev1alpha1.ObjectSetSpec{
 		LifecycleState: corev1alpha1.ObjectSetLifecycleState(sp.Lifecycle),
 		ObjectSetTemplateSpec: corev1alpha1.ObjectSetTemplateSpec{
@@ -340,13 +342,7 @@ func Exec(scn Scn) string {
 		}
 	}
 	y.env.Store.DryRunVerdict = func(u *unstructured.Unstructured) error {
-		switch verdicts[u.GetKind()+"/"+u.GetName()] {
-		case "reject":
-			return apierrors.NewInvalid(schema.GroupKind{Group: verifphase.Group, Kind: u.GetKind()}, u.GetName(), nil)
-		case "error":
-			return apierrors.NewInternalError(fmt.Errorf("scripted dry-run failure"))
-		}
-		return nil
+		return verifphase.DryRunError(verdicts[u.GetKind()+"/"+u.GetName()], u)
 	}
 	ctx := context.Background()
 	var outs []string
